@@ -44,8 +44,16 @@ def correspondence(ctx):
             dis.append(d)
             if len(dis) >= 2:
                 break
-    return dict(traces=traces, disagreements=dis, evaluations=evals, distinct_nontrivial=len(distinct), output_histogram=hist,
-                samples=[dict(script=sample)])
+    a = dict(traces=traces, disagreements=dis, evaluations=evals, distinct_nontrivial=len(distinct), output_histogram=hist,
+             samples=[dict(script=sample)])
+    # the ECU thread's own loop (timer pass, the decision to block on the wake-up queue and with which timeout): the scripts of
+    # C12 — c08_wait_timeout_positive is about this part of the model
+    from . import c12
+    from .. import corr22
+    b = c12.correspondence(ctx, n=ctx.n(150, 3000))
+    for d in b.get('disagreements', []):
+        d.setdefault('kind', 'ecu-pass')
+    return corr22.merge(a, b)
 
 
 # ------------------------------------------------------------------------------------------------ line-level oracle on the real code
